@@ -64,7 +64,7 @@ except Exception:  # noqa: BLE001
 MARKET_SETS = [["uni_a"], ["uni_a", "uni_b"], ["uni_a", "aave"], ["deribit"], ["uni_a", "deribit"], ["uni_sq", "squeeth"], ["gmx"]]
 CALL, PUT = "ETH-22SEP23-1650-C", "ETH-22SEP23-1600-P"
 T0 = "2023-08-15 00:00:00"
-GENERIC = ["idle", "watcher", "mut_prices", "mut_data", "mut_nested", "mut_status", "mut_assets", "trig_init", "trig_ctor"]
+GENERIC = ["idle", "watcher", "mut_prices", "mut_data", "mut_nested", "mut_status", "mut_assets", "trig_init", "trig_ctor", "mut_market", "raiser"]
 UNI = ["add1", "add2", "addremove", "buy", "sell", "rebalance", "failing", "indicator", "follower", "vandal", "bad_price"]
 OPT = ["opt_buy", "opt_round", "opt_twice"]
 BEHAVIOURS = GENERIC + UNI + ["add_b", "aave_s", "aave_sb"] + OPT + ["sq_buy", "sq_short", "glp_buy", "glp_round"]
@@ -299,6 +299,12 @@ def pd_freq_of(df):
     return idx[1] - idx[0]
 
 
+def market_frames(m):
+    """(attribute name, object) of every DataFrame / Series attribute of a market object other than its data frame and the per-bar rows"""
+    import pandas as pd
+    return [(k, v) for k, v in vars(m).items() if isinstance(v, (pd.DataFrame, pd.Series)) and k not in ("_data", "_market_status", "_price_status")]
+
+
 def probe_found(strategy):
     """what the objects handed to this backtest look like, against the pristine copies: positions already in the markets, extra
     columns, cells whose value differs, depth missing from order-book lists, price cells that differ, market cross-references"""
@@ -346,6 +352,8 @@ def probe_found(strategy):
     import decimal
     c = decimal.getcontext()
     f["dctx"] = [c.prec, c.rounding, sorted(t.__name__ for t, on in c.traps.items() if on)]
+    # every pandas object a market carries besides its data frame (Aave's risk-parameter table, …): part of the market object a backtest is handed
+    f["mattrs"] = [[mi.name, k, frame_hash(v if hasattr(v, "columns") else v.to_frame())] for mi, m in strategy.broker.markets.items() for k, v in sorted(market_frames(m))]
     own = getattr(strategy, "_own_triggers", [])
     f["foreign_triggers"] = len([t for t in strategy.triggers if not any(t is o for o in own)])
     return f
@@ -416,6 +424,26 @@ def make_strategy_class():
             elif b == "mut_prices":
                 c = [x for x in self.prices.columns if x != "USD"][0]
                 self.prices[c] = self.prices[c] * Decimal("0.98")          # values its holdings with a haircut
+            elif b == "mut_market":
+                # a stress scenario written into the market object it was handed: halves the first numeric column of every table the market carries
+                # (Aave: the loan-to-value column of the risk parameters), in place
+                def stress():
+                    import pandas as pd
+                    n = 0
+                    for mi, m in self.broker.markets.items():
+                        for k, v in market_frames(m):
+                            if isinstance(v, pd.DataFrame):
+                                for j in range(v.shape[1]):
+                                    x = v.iloc[0, j] if len(v) else None
+                                    if isinstance(x, (Decimal, float, int)) and not isinstance(x, bool):
+                                        v.iloc[:, j] = [y / 2 for y in v.iloc[:, j]]
+                                        n += 1
+                                        break
+                            elif len(v) and isinstance(v.iloc[0], (Decimal, float, int)) and not isinstance(v.iloc[0], bool):
+                                v.iloc[0] = v.iloc[0] / 2
+                                n += 1
+                    return n
+                self._try("stress", stress)
             elif b == "mut_nested":
                 # in-place writes into the Python lists stored inside cells of the frames it was handed (self.data)
                 def dig():
@@ -439,6 +467,9 @@ def make_strategy_class():
                 m.add_liquidity_by_tick(t - width, t + width, base, quote)
             # Deribit trades only on bars of its hourly grid: with minute bars (a Uniswap market is configured too) bars 0 and 60
             o1, o2 = (1, 2) if self.market_names == ["deribit"] else ((0, 60) if self._has("deribit") else (-1, -1))
+            if b == "raiser" and r == 2:
+                # a bug in the strategy: an exception nobody catches ends THIS backtest (no finalize); the other strategies are none of its business
+                raise ValueError("raiser: bug in on_bar")
             if b == "bad_price" and r in (1, 4):
                 # a computed price that came out non-positive: the call is refused, the strategy catches the exception and goes on trading
                 m = self._m(0)
@@ -671,22 +702,27 @@ def worker(spec_path):
         bt.platform = types.SimpleNamespace(system=lambda: "Windows")
     mgr = BacktestManager(config=config, data=data, strategies=strategies, backtest_config=BacktestConfig(interval=spec.get("interval", "1min")),
                           threads=spec["threads"])
-    mgr.run()
+    raised = None
+    try:
+        mgr.run()
+    except Exception as e:  # noqa: BLE001   (the class is the observation; what the strategies left behind is still collected)
+        raised = type(e).__name__ + ": " + str(e)[:100]
     if spec["threads"] == 1 or len(strategies) == 1:
         # in-process path: the strategy objects the caller holds ARE the ones that ran; what they say once every backtest is over
         for st in strategies:
             try:
-                with open(os.path.join(spec["out"], st.sid + "__post.json"), "w") as f:
-                    json.dump(dump_state(st), f)
-            except Exception:  # noqa: BLE001   (a strategy that never ran has no account)
-                pass
+                blob = json.dumps(dump_state(st))
+            except Exception:  # noqa: BLE001   (a strategy that never ran, or whose backtest ended in an exception, has no account)
+                continue
+            with open(os.path.join(spec["out"], st.sid + "__post.json"), "w") as f:
+                f.write(blob)
     after = {mi.name: frame_hash(df) for mi, df in frames.items()}
     after["price"] = frame_hash(pdf)
     leftover = {m.market_info.name: count_positions(m) for m in config.markets}
     attached = [m.market_info.name for m in config.markets if m.broker is not None]
     with open(os.path.join(spec["out"], "_manager.json"), "w") as f:
         json.dump({"data_intact": before == after, "changed": sorted(k for k in before if before[k] != after[k]),
-                   "config_positions_after": leftover, "config_attached": attached}, f)
+                   "config_positions_after": leftover, "config_attached": attached, "raised": raised}, f)
     if spec.get("direct"):
         for s in spec["strategies"]:
             config, data, tokens, pdf = build_world(spec)
@@ -700,7 +736,10 @@ def worker(spec_path):
             a.strategy = Scripted(s["sid"] + "_direct", s["behaviour"], spec["out"], spec["markets"], tokens, s.get("arg"))
             a.set_price(data.prices)
             a.interval = spec.get("interval", "1min")
-            a.run(False)
+            try:
+                a.run(False)
+            except Exception:  # noqa: BLE001   (a strategy that raises has no result when run alone either)
+                pass
 
 
 def edge_worker(spec_path):
@@ -766,7 +805,10 @@ def run_manager(spec, timeout=600):
         for s in spec["strategies"]:
             for sid in (s["sid"], s["sid"] + "_direct", s["sid"] + "__post"):
                 fp = os.path.join(d, sid + ".json")
-                res[sid] = json.load(open(fp)) if os.path.exists(fp) else None
+                try:
+                    res[sid] = json.load(open(fp)) if os.path.exists(fp) else None
+                except ValueError:          # a file the worker could not finish writing
+                    res[sid] = None
         mp = os.path.join(d, "_manager.json")
         mgr = json.load(open(mp)) if os.path.exists(mp) else None
         return res, mgr, p.returncode, p.stderr.decode(errors="replace")[-1500:]
@@ -862,7 +904,8 @@ def judge_case(ctx, case, outcome, solo_cache, model_reqs):
     path = "sequential" if len(ordered) == 1 or case["threads"] == 1 else ("pooled-args" if case.get("windows") else "pooled")
     mix = "+".join(case["markets"])
     ok = True
-    if rc != 0 or mgr is None:
+    has_raiser = "raiser" in case["behaviours"]
+    if rc != 0 or mgr is None or (mgr.get("raised") and not has_raiser):
         ctx.violate(f"manager.{path}.crash", f"BacktestManager.run() failed (exit {rc}) with threads={case['threads']}, markets {mix}, strategies {case['behaviours']}: {err[-300:]}", case)
         ok = False
     elif not mgr["data_intact"]:
@@ -875,6 +918,12 @@ def judge_case(ctx, case, outcome, solo_cache, model_reqs):
         ok = False
     for s in strategies:
         solo = solo_cache[solo_key(case, s["behaviour"], s["arg"])]
+        if s["behaviour"] == "raiser":
+            # ends its own backtest with an uncaught exception: no account history alone, none under the manager
+            if res.get(s["sid"]) is not None:
+                ctx.violate(f"manager.{path}.raiser-has-result", "a strategy that raises in on_bar reached finalize() under the manager", case)
+                ok = False
+            continue
         # reference: the plain-Actuator run; if the manager changes this strategy even when it is alone (reported by judge_solo),
         # interference is still looked for, against the manager's own solo run
         ref = solo["direct"] if diff_dump(solo["manager"], solo["direct"]) is None else solo["manager"]
@@ -914,7 +963,11 @@ def judge_solo(ctx, key, solo):
     conf, behaviour, arg = json.loads(key)
     case = dict(conf, threads=1, behaviours=[behaviour], args=[arg], order=[0], order_kind="id")
     d = diff_dump(solo["manager"], solo["direct"])
-    if solo["direct"] is None:
+    if behaviour == "raiser":
+        d = None if solo["manager"] is None and solo["direct"] is None else "a strategy that raises in on_bar produced a result"
+        if d is not None:
+            ctx.violate("manager.solo-differs-from-actuator", d, case)
+    elif solo["direct"] is None:
         ctx.disagree(f"reference run (plain Actuator) of '{behaviour}' on {conf['markets']} produced no result: {solo['err'][-300:]}", case)
     elif d is not None:
         ctx.violate("manager.solo-differs-from-actuator",
@@ -989,6 +1042,15 @@ def gen_cases(ctx):
     fixed(["uni_a"], 2, ["bad_price", "add1", "buy", "sell"])
     fixed(["uni_a", "uni_b"], 1, ["mut_data", "add1", "watcher", "add_b"])
     fixed(["uni_a", "aave"], 1, ["mut_status", "mut_assets", "watcher", "aave_s"])
+    # a strategy that writes into the tables its market objects carry (Aave risk parameters), followed by strategies that borrow under them
+    fixed(["uni_a", "aave"], 1, ["mut_market", "aave_sb", "idle"])
+    fixed(["uni_a", "aave"], 2, ["aave_sb", "mut_market", "aave_sb"])
+    # a strategy that ends its own backtest with an uncaught exception, first / in the middle / last, in-process and pooled
+    fixed(["uni_a"], 1, ["raiser", "add1", "buy"])
+    fixed(["uni_a"], 1, ["add1", "raiser", "buy"])
+    fixed(["uni_a"], 2, ["raiser", "add1", "buy"])
+    fixed(["uni_a"], 2, ["add1", "buy", "raiser", "sell"])
+    fixed(["uni_a"], 4, ["raiser", "raiser", "add1", "watcher"])
     # Squeeth refers to its oSQTH pool market: both are configured markets
     fixed(["uni_sq", "squeeth"], 1, ["sq_buy", "sq_short", "idle", "mut_data"], price_kind="decimal")
     fixed(["uni_sq", "squeeth"], 2, ["sq_short", "sq_buy", "watcher"])
